@@ -57,4 +57,22 @@ ImplMismatch(op, old, new, allLines) ==
                             exp |-> IF allLines THEN Take(new, op.ni + 1, op.ni + op.nl) ELSE Take(new, op.ni + 1, op.ni + 1),
                             is_insert |-> TRUE, is_delete |-> FALSE]
 ImplJson(ops, old, new, allLines) == [k \in DOMAIN ops |-> ImplMismatch(ops[k], old, new, allLines)]
+
+(* ---- Impl after the repair of the line numbers: the operation list of the diff library, Equal operations   *)
+(* included, is folded with running positions; only the LENGTHS of the operations and the index on the side   *)
+(* an operation reads its text from are used.  (similar 2.4's compaction pass leaves the other index stale:   *)
+(* `Delete{old 1244, new 1310}` followed by `Insert{old 1245, new 1309}` on tests/inputs/large-example.lua at  *)
+(* width 80 - the old transcription ImplJson then announces the insertion one line too early.)                *)
+RECURSIVE ImplJsonRunFrom(_, _, _, _, _)
+ImplJsonRunFrom(ops, k, op_, np_, new) ==
+  IF k > Len(ops) THEN <<>>
+  ELSE LET o == ops[k] IN
+       IF o.k = "equal" THEN ImplJsonRunFrom(ops, k + 1, op_ + o.ol, np_ + o.nl, new)
+       ELSE <<[os |-> op_, oe |-> IF o.k = "insert" THEN op_ ELSE op_ + o.ol - 1,
+               es |-> np_, ee |-> IF o.k = "delete" THEN np_ ELSE np_ + o.nl - 1,
+               \* the text is read through the operation's own index on the side it touches (never stale)
+               exp |-> IF o.k = "delete" THEN <<>> ELSE Take(new, o.ni + 1, o.ni + o.nl),
+               is_insert |-> o.k = "insert", is_delete |-> o.k = "delete"]>>
+            \o ImplJsonRunFrom(ops, k + 1, op_ + o.ol, np_ + o.nl, new)
+ImplJsonRun(ops, new) == ImplJsonRunFrom(ops, 1, 0, 0, new)
 =============================================================================
